@@ -68,6 +68,7 @@ func ruleC14(w *World, r *Report) {
 		"R14.4 emission is dominated by the not-rejected branch of SendMsgToUPF(modify) and by enableEndMarker, the list is function-local; R14.5 packet literal field mapping (IPv4 src/dst, UDP 2152, GTP TEID, message type 254) from the argument FAR."
 	r.Explanation += " R14.7 wherever endMarkerChan is assigned the consumer goroutine is started in the same function, and the consumer loops have no exit other than a closed channel."
 	r.Explanation += " R14.8 bit 2 of the flags octet is examined on every path after the octet was read; R14.9 UpdateFAR is called only with FARs parsed from Update FAR IEs."
+	r.Explanation += " R14.1 (cont.) every tunnel argument of addEndMarker comes from the stored FAR; what counts for the overwrite is where the stored element is read; R14.10 = C17 R17.6; R14.11 endMarkerSocket / notifyBessSocket are dialled at EndMarkerSockAddr|PfcpAddr / NotifySockAddr|SockAddr."
 	r.NotDecided = "the serialised bytes (gopacket); that the datapath actually transmits the packet"
 	upd := w.Fn(P, "pfcpiface.(*PFCPSession).UpdateFAR")
 	aem := w.Fn(P, "pfcpiface.addEndMarker")
